@@ -63,7 +63,8 @@ func (gl *GlobalSettings) save(balances cstate.StateContextI) error {
 
 func (gl *GlobalSettings) update(inputMap config2.StringMap) error {
 	var err error
-	for key, value := range inputMap.Fields {
+	for _, key := range config2.SortedKeys(inputMap.Fields) {
+		value := inputMap.Fields[key]
 		info, found := config2.GlobalSettingInfo[key]
 		if !found {
 			return fmt.Errorf("'%s' is not a valid global setting", key)
